@@ -133,11 +133,17 @@ PROPS["C11"] = {
 
 PROPS["C01"] = {
     "feature": "c01",
-    "tiers": tiers("C01", quick_cfgs=(DAON, DAOFF)),
+    "tiers": {"quick": [(DAON, ["c01_q_"]), (DAOFF, ["c01_q_parse1_dna", "c01_q_parse1_amino", "c01_q_parse1_degen", "c01_q_parse2_dna_G", "c01_q_push_dna_l32"])],
+              "thorough": [(DAON, ["c01_q_", "c01_t_"]), (DAOFF, ["c01_q_", "c01_t_parse"])],
+              "probe": [(DAON, ["c01_p_"])]},
     "mem_gb": 16,
     "functions": ["TryFrom<Vec<u8>|&[u8]|&str|String|&String> for Seq", "FromStr for Seq", "FromIterator<A> for Seq", "Seq::{with_capacity,extend,push}",
                   "String::from(&SeqSlice)", "Codec::try_from_ascii/to_char per codec"],
-    "bounds": {"all": "see DESIGN 4/C01"},
+    "bounds": {"all": "N=0 and N=1: the byte is fully symbolic (all 256 values) for all seven codecs, debug assertions on and off; N=2: first byte from a concrete "
+                      "representative set (valid / invalid / non-ASCII / gap), second byte fully symbolic; N=3 (thorough): two concrete + one symbolic byte; "
+                      "builder step: push of a symbolic symbol onto an owned sequence of L symbols with symbolic content for L at the codec's word boundary "
+                      "(31/32 Dna, 15/16 Iupac, 12 masked-Iupac, 9/10 Amino, 7/8 text, 63/64 degenerate); display of 2-3 symbols at word-straddling offsets; "
+                      "entry points &str/FromStr/&[u8]/String/&String/FromIterator at N=1 (2 for FromIterator)"},
     "outside": "inputs longer than the stated byte counts; reallocating growth of the bit vector",
 }
 
@@ -158,4 +164,15 @@ PROPS["C14"] = {
     "technique": "SMT (z3, cross-checked with cvc5) over the pattern table extracted from source + exhaustive native replay tying the encoding to the real function",
     "explanation": "solver over extracted table; reverse half not applicable",
     "assumptions": ["try_to_codon (reverse translation through a std HashMap) is NOT covered: not applicable to solver-based checking here"],
+}
+
+PROPS["C07"] = {
+    "feature": "c07",
+    "tiers": tiers("C07"),
+    "mem_gb": 16,
+    "functions": ["ReverseMut/ComplementMut for Seq", "ReverseComplementMut::revcomp (default)", "Reverse/Complement/ReverseComplement::to_* for Seq and SeqSlice",
+                  "ToOwned for SeqSlice", "ComplementMut on symbols"],
+    "bounds": {"all": "owned sequences of concrete length L (0,1,3,4; 11/13/33 in thorough = word-straddling) with fully symbolic content; copying forms on "
+                      "windows of 2-3 symbols at word-straddling concrete offsets; probe position symbolic"},
+    "outside": "other lengths/offsets; in-place forms on &mut SeqSlice are unreachable through the public API",
 }
